@@ -336,6 +336,13 @@ impl World {
 				let id = rest.split(' ').next().unwrap_or("");
 				return pa.iter().any(|y| y.starts_with(&format!("pending {} ", id)));
 			}
+			// likewise pending -> abandoned: the read-back copy has already failed the HTLCs the
+			// implied disconnection drops (or an on-chain failure its monitors replay) and only
+			// waits for its PaymentFailed event to be handled
+			if let Some(rest) = x.strip_prefix("abandoned ") {
+				let id = rest.split(' ').next().unwrap_or("");
+				return pa.iter().any(|y| y.starts_with(&format!("pending {} ", id)));
+			}
 			false
 		};
 		let appeared: Vec<&String> = pb.iter().filter(|x| !pa.contains(x) && !ahead(x)).collect();
